@@ -22,6 +22,7 @@ type entry struct {
 	vals []uint64
 	B    *big.Int
 	dead bool // noise bound over budget: no claim is made about it and it is not used any more
+	flipped bool // plaintext encoded in the other domain (IsBatched differs from the program's)
 }
 
 func (e *entry) level() int {
@@ -66,6 +67,9 @@ type ctx struct {
 	hasRlk    bool
 	pool      []*entry
 	calib     bool
+	Be, S1    int64 // |error coefficient| <= Be, ||secret||_1 <= S1
+	rlkLevelP int
+	rlkBase2  int
 	qmulClash bool // a Q prime is also a prime of the auxiliary basis QMul chosen by bgv.NewParameters (never generated; replay only)
 
 	// bookkeeping for the non-trivial rule
@@ -74,6 +78,7 @@ type ctx struct {
 	sawMul      bool
 	mismatch    bool
 	reused      bool
+	argModified string
 	nonCt       bool
 	errCases    int
 	overBudget  int
@@ -110,8 +115,6 @@ func addB(a *big.Int, bs ...*big.Int) *big.Int {
 	return r
 }
 
-const errBound = 20 // ceil of the default error bound 6*3.2 = 19.2
-
 func newCtx(c ProgCase, rec *h.Rec) (*ctx, error) {
 	params, err := c.Params.Build()
 	if err != nil {
@@ -127,21 +130,55 @@ func newCtx(c ProgCase, rec *h.Rec) (*ctx, error) {
 	for l := 0; l <= x.maxLevel; l++ {
 		x.Q = append(x.Q, h.ProdU(c.Params.Q[:l+1]))
 	}
-	// key-switch noise bound per level: sum over digits of N * (alpha+1) * Qdigit * Be / P + (alpha+2)(1+N)
-	alpha := len(c.Params.P)
-	P := h.ProdU(c.Params.P)
+	// distribution-dependent constants: |e| <= Be, ||s||_1 <= S1 (also for the ephemeral secret of public-key encryption)
+	x.Be = int64(c.Params.Xe.AbsBound())
+	if x.Be < 1 {
+		x.Be = 1
+	}
+	x.S1 = int64(h.SecretL1(c.Params.Xs, x.N))
+	if x.S1 < 1 {
+		x.S1 = 1
+	}
+	// relinearisation-key parameterisation: LevelP in -1..#P-1, power-of-two digits only when LevelP <= 0
+	nP := len(c.Params.P)
+	x.rlkLevelP = nP - 1
+	if nP > 1 && c.RlkLevelP > 0 {
+		x.rlkLevelP = nP - 1 - c.RlkLevelP%nP
+	}
+	if x.rlkLevelP <= 0 && c.RlkBase2 > 0 {
+		x.rlkBase2 = c.RlkBase2
+	}
+	// key-switch noise bound per level (on Dec, not multiplied by T):
+	//   RNS digits (w = 0):  sum over digits of N * (alpha+1) * Qdigit * Be / P
+	//   base-2^w digits:     sum over primes of (ceil(bits(q)/w)+1) * N * 2^w * 2*Be / P
+	// plus the rounding of the division by P, (alpha+2)(1+S1)+1
+	alpha := x.rlkLevelP + 1
+	P := bi(1)
+	if x.rlkLevelP >= 0 {
+		P = h.ProdU(c.Params.P[:x.rlkLevelP+1])
+	}
+	if alpha < 1 {
+		alpha = 1
+	}
 	for l := 0; l <= x.maxLevel; l++ {
 		sum := new(big.Int)
-		for j := 0; j*alpha <= l; j++ {
-			hi := (j + 1) * alpha
-			if hi > l+1 {
-				hi = l + 1
+		if x.rlkBase2 > 0 {
+			for j := 0; j <= l; j++ {
+				nd := (h.BU(c.Params.Q[j]).BitLen() + x.rlkBase2 - 1) / x.rlkBase2
+				sum.Add(sum, mulB(new(big.Int).Lsh(bi(1), uint(x.rlkBase2)), bi(int64(nd+1)), bi(int64(x.N)), bi(2*x.Be)))
 			}
-			qd := h.ProdU(c.Params.Q[j*alpha : hi])
-			sum.Add(sum, mulB(qd, bi(int64(x.N)), bi(int64(alpha+1)), bi(errBound)))
+		} else {
+			for j := 0; j*alpha <= l; j++ {
+				hi := (j + 1) * alpha
+				if hi > l+1 {
+					hi = l + 1
+				}
+				qd := h.ProdU(c.Params.Q[j*alpha : hi])
+				sum.Add(sum, mulB(qd, bi(int64(x.N)), bi(int64(alpha+1)), bi(x.Be)))
+			}
 		}
 		sum.Div(sum, P)
-		sum.Add(sum, bi(int64((alpha+2)*(1+x.N)+1)))
+		sum.Add(sum, bi(int64(alpha+2)*(1+x.S1)+1))
 		x.eks = append(x.eks, sum)
 	}
 
@@ -164,7 +201,8 @@ func newCtx(c ProgCase, rec *h.Rec) (*ctx, error) {
 	if c.NoRlk {
 		evk = rlwe.NewMemEvaluationKeySet(nil)
 	} else {
-		evk = rlwe.NewMemEvaluationKeySet(kgen.GenRelinearizationKeyNew(sk))
+		lp, w := x.rlkLevelP, x.rlkBase2
+		evk = rlwe.NewMemEvaluationKeySet(kgen.GenRelinearizationKeyNew(sk, rlwe.EvaluationKeyParameters{LevelP: &lp, BaseTwoDecomposition: &w}))
 		x.hasRlk = true
 	}
 	x.eval = bgv.NewEvaluator(params, evk, c.BFV)
@@ -244,6 +282,44 @@ func (x *ctx) vecOp(f func(a, b, q uint64) uint64, a, b []uint64) []uint64 {
 	return out
 }
 
+// mulVals is the product of two plaintext values: slot-wise for batched programs, the negacyclic convolution in
+// Z_t[Y]/(Y^n+1) for coefficient-domain programs (n = degree of the plaintext ring).
+func (x *ctx) mulVals(a, b []uint64) []uint64 {
+	if !x.c.Coeffs {
+		return x.vecOp(mulmod, a, b)
+	}
+	n := len(a)
+	out := make([]uint64, n)
+	for i := 0; i < n; i++ {
+		if a[i] == 0 {
+			continue
+		}
+		for j := 0; j < n; j++ {
+			if b[j] == 0 {
+				continue
+			}
+			p := mulmod(a[i], b[j], x.t)
+			if k := i + j; k >= n {
+				out[k-n] = submod(out[k-n], p, x.t)
+			} else {
+				out[k] = addmod(out[k], p, x.t)
+			}
+		}
+	}
+	return out
+}
+
+// addScalarVals adds / subtracts the constant c: to every slot of a batched value, to the constant coefficient of a
+// coefficient-domain value (the scalar is the constant polynomial in both cases).
+func (x *ctx) addScalarVals(f func(a, b, q uint64) uint64, a []uint64, c uint64) []uint64 {
+	if !x.c.Coeffs {
+		return x.vecScalar(f, a, c)
+	}
+	out := append([]uint64(nil), a...)
+	out[0] = f(out[0], c, x.t)
+	return out
+}
+
 func (x *ctx) vecScalar(f func(a, b, q uint64) uint64, a []uint64, s uint64) []uint64 {
 	out := make([]uint64, len(a))
 	for i := range a {
@@ -258,7 +334,7 @@ func (x *ctx) vecScalar(f func(a, b, q uint64) uint64, a []uint64, s uint64) []u
 
 func (x *ctx) freshBound() *big.Int {
 	// v = m + T*e with m in [0,t) and |e| <= Be*(2N+1) + N + 2 (public-key encryption, ternary secret/ephemeral)
-	e := bi(int64(errBound*(2*x.N+1) + x.N + 2))
+	e := bi(x.Be*(2*x.S1+1) + x.S1 + 2)
 	return addB(x.tB, mulB(x.tB, e))
 }
 
@@ -271,11 +347,15 @@ func (x *ctx) addInit(in Init) error {
 	vals := x.slotValues(in.Pat, in.Seed)
 	pt := bgv.NewPlaintext(x.params, level)
 	pt.Scale = x.params.NewScale(scale)
+	pt.IsBatched = !x.c.Coeffs
+	if in.Pt && in.Flip {
+		pt.IsBatched = x.c.Coeffs
+	}
 	if err := x.ecd.Encode(vals, pt); err != nil {
 		return h.Failf("C05:init:encode", "Encode: %v", err)
 	}
 	if in.Pt {
-		x.pool = append(x.pool, &entry{pt: pt, vals: vals, B: new(big.Int).Set(x.tB)})
+		x.pool = append(x.pool, &entry{pt: pt, vals: vals, B: new(big.Int).Set(x.tB), flipped: in.Flip})
 		return nil
 	}
 	enc := x.encPk
@@ -486,6 +566,16 @@ func (x *ctx) decodeNote(e *entry) string {
 
 // recheck verifies that an operand that is not documented as modified still decrypts to its model.
 func (x *ctx) recheck(e *entry, key string) error {
+	if e != nil && e.pt != nil {
+		got := make([]uint64, x.slots)
+		if err := x.ecd.Decode(e.pt, got); err != nil {
+			return x.fail(key+":plaintext-operand-modified", "Decode: %v", err)
+		}
+		if i := firstDiff(got, e.vals); i >= 0 {
+			return x.fail(key+":plaintext-operand-modified", "a plaintext operand no longer decodes to its value: position %d decoded %d, model %d", i, got[i], e.vals[i])
+		}
+		return nil
+	}
 	if e == nil || e.ct == nil || e.dead {
 		return nil
 	}
@@ -638,9 +728,9 @@ func (x *ctx) tensorSI(B0, B1 *big.Int, level int) *big.Int {
 	a := new(big.Int).Div(mulB(N, B0, B1), x.Q[level])
 	a.Add(a, bi(1))
 	b := mulB(N, addB(new(big.Int).Rsh(x.tB, 1), bi(2)), sum)
-	c := mulB(x.tB, N, bi(int64(x.N+3)), sum)
+	c := mulB(x.tB, N, bi(x.S1+3), sum)
 	R := bi(int64(level + 4))
-	d := mulB(x.tB, x.tB, R, bi(int64(1+x.N+x.N*x.N)))
+	d := mulB(x.tB, x.tB, R, addB(bi(1+x.S1), mulB(bi(x.S1), bi(x.S1))))
 	r := addB(a, b, c, d)
 	return r.Lsh(r, 1)
 }
@@ -649,7 +739,7 @@ func (x *ctx) ksNoise(level int) *big.Int { return mulB(x.tB, x.eks[level]) }
 
 func (x *ctx) rescaleBound(B0 *big.Int, q uint64) *big.Int {
 	r := new(big.Int).Div(B0, h.BU(q))
-	rr := mulB(x.tB, bi(int64(1+x.N+x.N*x.N)))
+	rr := mulB(x.tB, addB(bi(1+x.S1), mulB(bi(x.S1), bi(x.S1))))
 	rr.Rsh(rr, 1)
 	return addB(r, rr, bi(2))
 }
@@ -714,6 +804,14 @@ func (x *ctx) book() {
 	if x.c.NoRlk {
 		rec.Class("no-rlk")
 	}
+	dom := "domain=slots"
+	if x.c.Coeffs {
+		dom = "domain=coeffs"
+	}
+	rec.Class(dom)
+	rec.Classf("nP=%d", len(p.P))
+	rec.Classf("rlk:levelP=%d/base2=%v", x.rlkLevelP, x.rlkBase2 > 0)
+	rec.Classf("xs=%s/xe=%s", p.Xs.Kind, p.Xe.Kind)
 	rec.Classf("steps-executed=%d", imin(len(x.trace), 12))
 	for _, s := range x.trace {
 		rec.Class("op=" + s)
@@ -731,7 +829,7 @@ func (x *ctx) book() {
 		rec.Class("had-reused-receiver")
 	}
 	if len(x.trace) >= 3 && (x.mulThenOp || x.mismatch || x.nonCt) {
-		rec.NonTrivial(fmt.Sprintf("%s|logN%d|nQ%d|%s|%s|%s", x.mode, p.LogN, len(p.Q), gap, tcls, strings.Join(x.trace, ",")))
+		rec.NonTrivial(fmt.Sprintf("%s|%s|logN%d|nQ%d|nP%d|%s|%s|%s", x.mode, dom, p.LogN, len(p.Q), len(p.P), gap, tcls, strings.Join(x.trace, ",")))
 	}
 }
 
